@@ -7,6 +7,7 @@ from ..replay import render_value
 BOUNDS = {"time": "any u128 (symbolic) or absent", "size": "declared size equal to the data length (symbolic) or absent",
           "metadata": "opaque JSON value (any structure: the round trip may not depend on it) plus concrete nested samples; or absent",
           "raw_metadata": "opaque byte string of any length / concrete samples / absent",
+          "integrity": "computed by the writer, or attached by the caller: a single hash or two hashes of different algorithms (both correct)",
           "keys": "hostile key set", "data": "any length",
           "outside": "binary64 values that JSON text does not carry exactly (excluded by the property)"}
 
@@ -18,7 +19,7 @@ def field(meta, name):
     return meta.fields[names.index(name)]
 
 
-def roundtrip(ctx, key, with_time, with_meta, with_raw, declared, entry, api):
+def roundtrip(ctx, key, with_time, with_meta, with_raw, declared, entry, api, with_integrity=None):
     scn = ctx.new_scn(api=api)
     I = scn.s.I
     D = scn.blob("D")
@@ -46,6 +47,16 @@ def roundtrip(ctx, key, with_time, with_meta, with_raw, declared, entry, api):
         opts["raw_metadata"] = raw
     if declared:
         opts["size"] = D.len
+    supplied = None
+    if with_integrity == "single":
+        supplied = scn.sri_of(data, "Sha512")
+    elif with_integrity == "multi":
+        supplied = scn.sri_multi(scn.sri_of(data, "Sha512"), scn.sri_of(data, "Sha256"))
+    elif with_integrity == "multi-sha1":
+        supplied = scn.sri_multi(scn.sri_of(data, "Sha256"), scn.sri_of(data, "Sha1"))
+    if supplied is not None:
+        opts["integrity"] = supplied
+        tag += ":I-" + with_integrity
     if entry == "oneshot":
         r = scn.write(key, data)
         if not expect_ok(ctx, r, tag + ":write", "one-shot write"):
@@ -62,6 +73,8 @@ def roundtrip(ctx, key, with_time, with_meta, with_raw, declared, entry, api):
         if not expect_ok(ctx, r, tag + ":commit", "commit"):
             return
         sri = r.value
+        if supplied is not None:
+            sri = supplied       # the integrity value the writer attached is what lookups must return
     n_clock = len(scn.env.clock_terms)
     for how in ("metadata", "list"):
         if how == "metadata":
@@ -97,7 +110,7 @@ def roundtrip(ctx, key, with_time, with_meta, with_raw, declared, entry, api):
         # key
         ctx.expect(sb.content_eq(field(m, "key").sb, SBytes.of(key), ctx.w), tag + ":%s:key" % how, what + ": key differs", native=nat_field("key", lambda cz: key))
         # integrity
-        ctx.expect(values_eq(I, field(m, "integrity"), sri), tag + ":%s:integrity" % how, what + ": integrity differs from the one returned by the write",
+        ctx.expect(values_eq(I, field(m, "integrity"), sri), tag + ":%s:integrity" % how, what + ": integrity differs from the one " + ("the writer attached" if supplied is not None else "returned by the write"),
                    native=nat_field("integrity", lambda cz: cz.bytes_of(sri.display(I)).decode()))
         # time
         t = field(m, "time")
@@ -201,6 +214,8 @@ def tasks(tier, flavours):
         for wt, wm, wr, dec in combos:
             out.append(dict(module="C11", family="roundtrip", flavour=fl, params=dict(key="a", with_time=wt, with_meta=wm, with_raw=wr, declared=dec, entry="streamed", api=api)))
         out.append(dict(module="C11", family="roundtrip", flavour=fl, params=dict(key="a", with_time=False, with_meta=False, with_raw=False, declared=False, entry="oneshot", api=api)))
+        for wi in ("single", "multi", "multi-sha1"):
+            out.append(dict(module="C11", family="roundtrip", flavour=fl, params=dict(key="a", with_time=True, with_meta=1, with_raw=False, declared=(wi == "multi"), entry="streamed", api=api, with_integrity=wi)))
         for same in (True, False):
             out.append(dict(module="C11", family="rewrite", flavour=fl, params=dict(same_data=same, api=api)))
     return out
